@@ -22,12 +22,14 @@ struct MModel { std::map<long, long> m;
         case K_COUNT: if (!chk) return true; return (long)m.count(k) == o.res;
         case K_ERASE: { bool had = m.count(k); if (chk && (o.res != 0) != had) return false; m.erase(k); return true; } }
         return false; } };
-static int wr[4096], rd[4096];   // holder bookkeeping per key (plain: only touched between scheduling points)
-static void hold_w(int k, Val& v) { if (++wr[k & 4095] != 1 || rd[k & 4095]) vf_fail("accessor to key %d not exclusive (writers=%d readers=%d)", k, wr[k & 4095], rd[k & 4095]); vf_plain_write(&v.v); vf_point(); if (v.canary != 0xC0FFEE) vf_fail("element of key %d destroyed while an accessor points to it", k); --wr[k & 4095]; }
-static void hold_r(int k, const Val& v) { ++rd[k & 4095]; if (wr[k & 4095]) vf_fail("const_accessor to key %d while an accessor is held", k); vf_plain_read(&v.v); vf_point(); if (v.canary != 0xC0FFEE) vf_fail("element of key %d destroyed while a const_accessor points to it", k); --rd[k & 4095]; }
+// Holder bookkeeping per ELEMENT (its address), not per key: erase(key) unlinks an element that another thread still holds an
+// accessor to and a later insert of the same key creates a different element - the property speaks about accessors to one element.
+static std::map<const void*, std::pair<int, int>> holders;   // plain: only touched between scheduling points
+static void hold_w(int k, Val& v) { auto& h = holders[&v]; if (++h.first != 1 || h.second) vf_fail("accessor to the element of key %d not exclusive (writers=%d readers=%d)", k, h.first, h.second); vf_plain_write(&v.v); vf_point(); if (v.canary != 0xC0FFEE) vf_fail("element of key %d destroyed while an accessor points to it", k); --holders[&v].first; }
+static void hold_r(int k, const Val& v) { auto& h = holders[&v]; ++h.second; if (h.first) vf_fail("const_accessor to the element of key %d while an accessor is held", k); vf_plain_read(&v.v); vf_point(); if (v.canary != 0xC0FFEE) vf_fail("element of key %d destroyed while a const_accessor points to it", k); --holders[&v].second; }
 static void scenario() {
     const char* h = vf_param("hash", "id"); g_hash = streq(h, "id") ? 0 : streq(h, "const") ? 1 : 2;
-    Map map; MModel m; Log log;
+    Map map; MModel m; Log log; holders.clear();
     long pre = vf_param_int("pre", 0); for (long i = 0; i < pre; i++) { map.insert(std::make_pair((int)(1000 + i), Val(1))); m.m[1000 + i] = 1; }
     for (const char* p = vf_param("prekeys", ""); *p;) { long k = strtol(p, (char**)&p, 10); map.insert(std::make_pair((int)k, Val(2))); m.m[k] = 2; while (*p == ',') p++; }
     std::vector<std::string> progs(1); for (const char* p = vf_param("prog", "I3|I3|F3"); *p; p++) { if (*p == '|') progs.emplace_back(); else progs.back() += *p; }
